@@ -59,7 +59,8 @@ pub fn max_streams_frame_with_dir(
 ) -> impl Fn(&[u8]) -> nom::IResult<&[u8], MaxStreamsFrame> {
     move |input: &[u8]| {
         let (remain, max_streams) = be_varint(input)?;
-        if max_streams > MAX_STREAMS_LIMIT {
+        // MAX_STREAMS_LIMIT bounds the stream index; a *count* of 2^60 streams is still legal
+        if max_streams > MAX_STREAMS_LIMIT + 1 {
             Err(nom::Err::Error(nom::error::Error::new(
                 input,
                 nom::error::ErrorKind::TooLarge,
